@@ -19,6 +19,6 @@ grep -q "$wt" harness/Cargo.toml || { echo "relocation failed"; exit 2; }
 ( cd $wt && git checkout -q -- . && git apply $d/out/patch.diff ) || { echo "patch does not apply"; exit 2; }
 trap "cd $wt && git checkout -q -- ." EXIT
 for c in "$@"; do
-  ./check $c --tier quick 2>&1 | tail -${LINES_OUT:-3} | cut -c1-300
+  ./check $c --tier ${TIER:-quick} 2>&1 | tail -${LINES_OUT:-3} | cut -c1-300
   echo "== dev $c rc=${PIPESTATUS[0]}"
 done
